@@ -103,3 +103,79 @@ Print Assumptions C02_dopri5_estimator.
 Theorem C02_dopri5_rowsums : row_sums (DOPRI5C.A lit_q) = DOPRI5C.c lit_q.
 Proof. exact (qvec_eqb_correct _ _ DOPRI5C.rowsums). Qed.
 Print Assumptions C02_dopri5_rowsums.
+
+(* ---------- DOP853: order 8, not 9; estimators of order 5 and 3 (q = 8 through the combined formula) ----------
+   The coefficients are 30-digit decimals, so the conditions hold to ~1e-28, not exactly.  Elementary weights are
+   computed over Z on the common denominator D of the tableau (proofs/ScaleFacts.v, CertDop853.v):
+   the RESIDUAL gamma(t) * b.Phi(t) - 1 of every tree equals M / D^size(t) for an integer M that the certificate
+   bounds:  |M| * 10^25 <= gamma(t) * D^size(t),  i.e.  |residual| <= gamma(t) * 1e-25.
+   `lit_q`: the decimal literals as written; `f64_q`: the binary64 numbers the program multiplies by (bound 1e-13). *)
+Require Import IVP.proofs.ScaleFacts IVP.proofs.CertDop853.
+Import DOP853C.
+
+Notation iD := (/ Z2Qc (D lit_q)).
+
+Theorem C02_dop853_order8 :
+  forall t, (size t <= 8)%nat ->
+    exists M : Z,
+      Z2Qc (gamma t) * qdot (b lit_q) (Phi QcK (A lit_q) 12 t) - 1 = iD ^ size t * Z2Qc M /\
+      (Z.abs M * 10^25 <= gamma t * 1 * (D lit_q) ^ Z.of_nat (size t))%Z.
+Proof. exact DOP853Cert.order8_sound. Qed.
+Print Assumptions C02_dop853_order8.
+
+Theorem C02_dop853_order8_f64 :
+  forall t, (size t <= 8)%nat ->
+    exists M : Z,
+      Z2Qc (gamma t) * qdot (b f64_q) (Phi QcK (A f64_q) 12 t) - 1 = (/ Z2Qc (D f64_q)) ^ size t * Z2Qc M /\
+      (Z.abs M * 10^13 <= gamma t * 1 * (D f64_q) ^ Z.of_nat (size t))%Z.
+Proof. exact DOP853Cert.order8_f64_sound. Qed.
+Print Assumptions C02_dop853_order8_f64.
+
+(* the order-9 condition of the bushy tree t9 = [tau^8] fails: its residual M9 / D^9 exceeds 1e-4 in magnitude *)
+Theorem C02_dop853_not_order9 :
+  size DOP853Cert.t9 = 9%nat /\
+  Z2Qc (gamma DOP853Cert.t9) * qdot (b lit_q) (Phi QcK (A lit_q) 12 DOP853Cert.t9) - 1
+    = iD ^ size DOP853Cert.t9 * Z2Qc DOP853Cert.M9 /\
+  (10^8 <= Z.abs DOP853Cert.M9 * 10^12 / (D lit_q) ^ 9)%Z.
+Proof.
+  split; [exact DOP853Cert.size_t9|]. split; [exact DOP853Cert.resid9_eq|].
+  apply Z.leb_le. exact DOP853Cert.M9_val.
+Qed.
+Print Assumptions C02_dop853_not_order9.
+
+(* err  = |h| * |er . k|   annihilates every elementary differential of order <= 5 (to 1e-25), not all of order 6;
+   err2 = |h| * |(b - bhh) . k|  those of order <= 3, not all of order 4 *)
+Theorem C02_dop853_estimators :
+  (forall t, (size t <= 5)%nat -> exists M : Z,
+      qdot (er lit_q) (Phi QcK (A lit_q) 12 t) = iD ^ size t * Z2Qc M /\
+      (Z.abs M * 10^25 <= 1 * (D lit_q) ^ Z.of_nat (size t))%Z) /\
+  (forall t, (size t <= 3)%nat -> exists M : Z,
+      qdot (e2 lit_q) (Phi QcK (A lit_q) 12 t) = iD ^ size t * Z2Qc M /\
+      (Z.abs M * 10^25 <= 1 * (D lit_q) ^ Z.of_nat (size t))%Z) /\
+  (size DOP853Cert.t6 = 6%nat /\
+   qdot (er lit_q) (Phi QcK (A lit_q) 12 DOP853Cert.t6) = iD ^ size DOP853Cert.t6 * Z2Qc DOP853Cert.M6 /\
+   (10^8 <= Z.abs DOP853Cert.M6 * 10^12 / (D lit_q) ^ 6)%Z) /\
+  (size DOP853Cert.t4 = 4%nat /\
+   qdot (e2 lit_q) (Phi QcK (A lit_q) 12 DOP853Cert.t4) = iD ^ size DOP853Cert.t4 * Z2Qc DOP853Cert.M4 /\
+   (10^10 <= Z.abs DOP853Cert.M4 * 10^12 / (D lit_q) ^ 4)%Z).
+Proof.
+  split; [exact DOP853Cert.est5_sound|]. split; [exact DOP853Cert.est3_sound|]. split.
+  - split; [exact DOP853Cert.size_t6|]. split; [exact DOP853Cert.resid6_eq|].
+    apply Z.leb_le. exact DOP853Cert.M6_val.
+  - split; [exact DOP853Cert.size_t4|]. split; [exact DOP853Cert.resid4_eq|].
+    apply Z.leb_le. exact DOP853Cert.M4_val.
+Qed.
+Print Assumptions C02_dop853_estimators.
+
+(* the time argument of every stage is consistent with its state argument: |sum_j a_ij - c_i| <= 1e-28 (1e-14 in binary64) *)
+Theorem C02_dop853_rowsums :
+  (length (row_sums (A lit_q)) = length (c lit_q) /\
+   forall i, (i < length (row_sums (A lit_q)))%nat ->
+     qabs (nth i (row_sums (A lit_q)) 0 - nth i (c lit_q) 0) <= Q2Qc (1 # 10^28)) /\
+  (forall i, (i < length (row_sums (A f64_q)))%nat ->
+     qabs (nth i (row_sums (A f64_q)) 0 - nth i (c f64_q) 0) <= Q2Qc (1 # 10^14)).
+Proof.
+  split; [exact (DOP853Cert.rows_close_spec _ _ _ DOP853Cert.rowsums)|].
+  exact (proj2 (DOP853Cert.rows_close_spec _ _ _ DOP853Cert.rowsums_f64)).
+Qed.
+Print Assumptions C02_dop853_rowsums.
